@@ -39,6 +39,12 @@ def worlds(tier, seed):
                 k += 1
                 out.append(dict(engines=list(eng), gens=1 + k % 2, Mh=3, seed=s + k % 3, sprout={"kind": sk, "L": 2}, hib=hib, drive="run",
                                 obj=("twofunnel", "sphere_in", "plateau")[k % 3], maximize=bool((k // 5) % 2), request_probe=False))
+    # trees that share their stop-condition / mechanism objects (as users do with module-level defaults): the result of a
+    # seeded run must not depend on which other trees were built from those objects before
+    for j in range(6):
+        eng = [("SEA", "CMAf"), ("DE", "SEA"), ("SEA", "DE", "CMAf")][j % 3]
+        out.append(dict(engines=list(eng), gens=1, Mh=7, seed=s + 11 + j, sprout={"kind": "simple", "L": 2}, hib=bool(j % 2), drive="run", request_probe=False, reuse_components=True,
+                        lsc=[None] + [{"kind": "steadiness", "n": 2, "dev": 0.02}] * (len(eng) - 1), obj="twofunnel"))
     # random_seed = 0 is a seed like any other
     for eng in [e for e in shapes_h2() if e[1].startswith("CMA")] + [("SEA",), ("LHS", "SOB"), ("DE", "SHADE")]:
         k += 1
@@ -105,6 +111,7 @@ def run_unit(unit):
     if unit["kind"] == "inproc":
         ws = worlds(unit["tier"], unit["seed"])[unit["lo"] : unit["hi"]]
         pay = {}
+        reuse_seen = []
         for desc in ws:
             digs = []
             for st in (0, 1, 2):
@@ -121,8 +128,17 @@ def run_unit(unit):
                 which = "reseeded+advanced" if digs[0] != digs[1] else "OS entropy"
                 res.add_violation(ID, f"C14/prior-state:{'+'.join(desc['engines'])}", f"seeded run of {desc['engines']} depends on the prior state of the global generators ({which})", {"digests": digs}, rep)
             pay[key(desc)] = digs[0]
+            if desc.get("reuse_components"):
+                reuse_seen.append((desc, digs[0]))
             if len(res.samples) < 2:
                 res.samples.append({"desc": desc, "digest": digs[0], "prior_states": ["as left", "reseeded+advanced", "OS entropy"]})
+        # second visit, in reverse order, of the worlds that share component objects
+        for desc, d0 in reversed(reuse_seen):
+            d1, _ = digest_of(desc, res)
+            res.flags["world with shared components revisited after other trees"] += 1
+            if d1 != d0:
+                rep = {"check": ID, "unit": {"kind": "inproc"}, "desc": desc, "dev": []}
+                res.add_violation(ID, "C14/depends-on-earlier-trees", f"seeded run of {desc['engines']} gives a different tree after other trees were built from the same stop-condition / mechanism objects", {}, rep)
         res.payload["inproc"] = pay
     elif unit["kind"] == "sub":
         env = dict(os.environ, PYTHONHASHSEED=unit["hashseed"])
